@@ -37,3 +37,13 @@ Print Assumptions C16_history_independent.
 Theorem C16_block_provider_is_fresh : p_ctr p_init = 0%N /\ p_idents p_init = [] /\ p_dup p_init = false.
 Proof. repeat split; reflexivity. Qed.
 Print Assumptions C16_block_provider_is_fresh.
+
+(** The one place where the code iterates a hash map whose order changes from run to run (the comment store):
+    the result does not depend on that order (P_Comments.v; the comparison is read from the code on every run). *)
+From IastRw Require Import Comments P_Comments.
+Theorem C16_comment_store_order_is_irrelevant : forall (q : string -> bool) (l l' : list comment),
+  Permutation.Permutation l l' ->
+  (forall p t t', In (p, t) l -> In (p, t') l -> q t = true -> q t' = true -> t = t') ->
+  select q l = select q l'.
+Proof. exact select_order_independent. Qed.
+Print Assumptions C16_comment_store_order_is_irrelevant.
